@@ -35,8 +35,9 @@ example : (insertZ { fmt := { dec := false, hex := true, showbase := true, inter
     (insertZ { fmt := { dec := true, hex := true, showbase := true, uppercase := true } } 255).out = "255".toList ∧
     (insertZ { fmt := { dec := false, hex := true, showbase := true, uppercase := true } } 255).out = "0XFF".toList := by
   decide +kernel
--- a NUL fill character truncates (right adjustment: nothing at all is written)
-example : (insertZ { width := 5, fill := '\x00' } 7).out = [] ∧ (insertZ { width := 5, fill := '\x00', fmt := { left := true } } 7).out = ['7'] := by
+-- a NUL fill character is written like any other (before /repo 2def0d3 the text was cut at the first NUL and freed with the wrong size)
+example : (insertZ { width := 5, fill := '\x00' } 7).out = ['\x00', '\x00', '\x00', '\x00', '7'] ∧
+    (insertZ { width := 5, fill := '\x00', fmt := { left := true } } 7).out = ['7', '\x00', '\x00', '\x00', '\x00'] := by
   decide +kernel
 
 /-- `insertQ_layout`: `o << q` for a rational with positive denominator: as `insertZ_layout` for the numerator, the
